@@ -317,12 +317,15 @@ static uint32_t crc32_buf(const unsigned char *p, size_t n)
 	for (i = 0; i < n; i++) c = tab[(c ^ p[i]) & 0xFF] ^ (c >> 8);
 	return c ^ 0xFFFFFFFFu;
 }
+/* whether the byte at bpos is known to have been written: printbuf_memset is not required to terminate, so after a successful memset the byte
+ * behind the contents may never have been written at all -- the driver must not read it (memcheck would, rightly, blame the driver) */
+static int pb_term_defined;
 static void pb_state(int ret, int err, long n, long off)
 {
 	ob_printf(&out, "= ret=%d errno=%d n=%ld off=%ld", ret, err, n, off);
 	if (!PB) { ob_puts(&out, " nopb"); return; }
 	ob_printf(&out, " bpos=%d size=%d blk=%ld term=%d crc=%u head=x", PB->bpos, PB->size, (long)vf_block_size(PB->buf),
-	          (PB->bpos >= 0 && PB->bpos < PB->size) ? (int)(unsigned char)PB->buf[PB->bpos] : -1,
+	          (pb_term_defined && PB->bpos >= 0 && PB->bpos < PB->size) ? (int)(unsigned char)PB->buf[PB->bpos] : -1,
 	          (PB->bpos >= 0 && PB->bpos <= PB->size) ? crc32_buf((unsigned char *)PB->buf, (size_t)PB->bpos) : 0u);
 	if (PB->bpos >= 0 && PB->bpos <= PB->size) ob_hex(&out, PB->buf, PB->bpos < 24 ? (size_t)PB->bpos : 24);
 }
@@ -334,10 +337,10 @@ static void fill_pattern(unsigned char *b, long n, unsigned seed, int alpha)
 static void cmd_pb(int nt, char **t)
 {
 	const char *op = t[1]; int r = 0, e = 0; long n = 0, off = 0;
-	if (!strcmp(op, "new")) { if (PB) printbuf_free(PB); PB = printbuf_new(); pb_state(PB != NULL, 0, 0, 0); return; }
+	if (!strcmp(op, "new")) { if (PB) printbuf_free(PB); PB = printbuf_new(); pb_term_defined = 1; pb_state(PB != NULL, 0, 0, 0); return; }
 	if (!PB) { ob_puts(&out, "! no printbuf"); return; }
 	if (!strcmp(op, "free")) { printbuf_free(PB); PB = NULL; ob_puts(&out, "= freed"); return; }
-	if (!strcmp(op, "reset")) { printbuf_reset(PB); pb_state(0, 0, 0, 0); return; }
+	if (!strcmp(op, "reset")) { printbuf_reset(PB); pb_term_defined = 1; pb_state(0, 0, 0, 0); return; }
 	if (!strcmp(op, "app") || !strcmp(op, "fast") || !strcmp(op, "fmt")) {
 		long arg = L(t[3]); unsigned seed = (unsigned)UL(t[4]); unsigned char *src; int alpha = !strcmp(op, "fmt");
 		if (nt < 5) { ob_puts(&out, "! PB args"); return; }
@@ -350,6 +353,7 @@ static void cmd_pb(int nt, char **t)
 		else if (!strcmp(op, "fast")) { unsigned char *ex = (unsigned char *)malloc(n ? (size_t)n : 1); memcpy(ex, src, (size_t)n); printbuf_memappend_fast(PB, (char *)ex, (int)n); r = (int)n; e = errno; free(ex); }
 		else { r = sprintbuf(PB, "%s", (char *)src); e = errno; }
 		free(src);
+		if (r >= 0) pb_term_defined = 1;
 		pb_state(r, e, n, 0); return;
 	}
 	if (!strcmp(op, "str")) {
@@ -361,7 +365,7 @@ static void cmd_pb(int nt, char **t)
 		case 2: r = printbuf_strappend(PB, "null"); n = 4; break;
 		default: r = printbuf_strappend(PB, "0123456789abcdefghijklmnopqrstuvwxyzABCDEFGHIJKLMNOPQRSTUVWXYZ"); n = 62; break;
 		}
-		e = errno; pb_state(r, e, n, 0); return;
+		e = errno; if (r >= 0) pb_term_defined = 1; pb_state(r, e, n, 0); return;
 	}
 	if (!strcmp(op, "appx")) {
 		long size = L(t[2]), srclen = L(t[3]); char *src = (char *)malloc(srclen ? (size_t)srclen : 1);
@@ -376,9 +380,10 @@ static void cmd_pb(int nt, char **t)
 		o2 = off == -1 ? PB->bpos : off;
 		if (t[5][1] == 'r') { if (PB->size <= 8192) len = (long)PB->size - o2 + len; if (len < 0) len = 0; }
 		errno = 0; r = printbuf_memset(PB, (int)off, ch, (int)len); e = errno;
+		if (r == 0) pb_term_defined = 0;
 		pb_state(r, e, len, off); return;
 	}
-	if (!strcmp(op, "fmtd")) { errno = 0; r = sprintbuf(PB, "%d|%s|%5.2f", (int)L(t[2]), "xy", 1.5); e = errno; pb_state(r, e, 0, 0); return; }
+	if (!strcmp(op, "fmtd")) { errno = 0; r = sprintbuf(PB, "%d|%s|%5.2f", (int)L(t[2]), "xy", 1.5); e = errno; if (r >= 0) pb_term_defined = 1; pb_state(r, e, 0, 0); return; }
 	ob_puts(&out, "! PB op");
 }
 
